@@ -1133,3 +1133,113 @@ Proof.
       fold (scan (t ++ LT :: c :: x'')). now rewrite (scan_raw t c x'' Ht Hc Hs Hzx).
   - intros sk. unfold effect. fold (scan (t ++ LT :: c :: r)). now rewrite (scan_raw t c r Ht Hc Hs Hr).
 Qed.
+
+(* ---- behind quiet text the text itself does not end with a backslash ---- *)
+Lemma scan_ends a : l_cand (scan a) = CText -> ends_with_bsl a = ends_with_bsl (l_cur (scan a)).
+Proof.
+  destruct a as [|c a'] using rev_ind; [reflexivity|]. clear IHa'. unfold scan. rewrite fold_left_app. cbn [fold_left]. fold (scan a').
+  destruct (lex_step_shape (scan a') c) as [[_ E]|[[_ E]|[(k & _ & Ht & Er & E)|(cl & nm & Ec & E)]]]; rewrite E; cbn [mk l_cand l_cur]; intros Hk.
+  - discriminate.
+  - now rewrite !app_assoc, !ends_snoc.
+  - subst k. cbn [raw_of] in Er. destruct (raw_of (l_cand (scan a'))); discriminate.
+  - subst c. now rewrite ends_snoc.
+Qed.
+Lemma quiet_ends a : quiet a -> ends_with_bsl a = false.
+Proof. intros [H1 H2]. now rewrite (scan_ends a H1). Qed.
+Lemma calm_join sty : forall l, Forall (calm sty) l -> calm sty (join_with 32%N l).
+Proof.
+  induction 1 as [|x r Hx Hr IH]; [apply calm_nil|]. destruct r as [|y r]; [exact Hx|].
+  change (join_with 32%N (x :: y :: r)) with (x ++ [32%N] ++ join_with 32%N (y :: r)).
+  apply calm_app; [exact Hx|]. apply calm_app; [|exact IH]. apply calm_text; [repeat constructor; discriminate|reflexivity].
+Qed.
+
+(* ---- munge: textwrap's view of a text ---- *)
+Lemma munge_app a b : munge (a ++ b) = munge a ++ munge b.
+Proof. apply map_app. Qed.
+Lemma tw_space_not_bsl c : tw_space c = true -> c <> BSL.
+Proof.
+  unfold tw_space. intros H. apply existsb_exists in H as (x & Hin & E). apply N.eqb_eq in E. subst x.
+  cbn [In] in Hin. repeat (destruct Hin as [<-|Hin]; [discriminate|]). contradiction.
+Qed.
+Lemma munge_ends t : ends_with_bsl (munge t) = ends_with_bsl t.
+Proof.
+  unfold ends_with_bsl, munge. rewrite <- map_rev. destruct (rev t) as [|c r]; [reflexivity|]. cbn [map].
+  destruct (tw_space c) eqn:E; [|reflexivity]. apply tw_space_not_bsl, N.eqb_neq in E. now rewrite E.
+Qed.
+Definition spaceless (t : str) : Prop := Forall (fun c => tw_space c = false) t.
+Lemma munge_id t : spaceless t -> munge t = t.
+Proof. induction 1 as [|c r Hc Hr IH]; [reflexivity|]. cbn [munge map]. rewrite Hc. f_equal. exact IH. Qed.
+Lemma munge_join : forall l, munge (join_with 32%N l) = join_with 32%N (map munge l).
+Proof.
+  induction l as [|x r IH]; [reflexivity|]. destruct r as [|y r]; [reflexivity|].
+  change (join_with 32%N (x :: y :: r)) with (x ++ 32%N :: join_with 32%N (y :: r)). rewrite munge_app. cbn [munge map].
+  fold (munge (join_with 32%N (y :: r))). rewrite IH. reflexivity.
+Qed.
+Lemma munge_no_bsl t : no_bsl t -> no_bsl (munge t).
+Proof.
+  intros H. unfold munge, no_bsl in *. apply Forall_forall. intros c Hc. apply in_map_iff in Hc as [x [<- Hx]]. rewrite Forall_forall in H.
+  destruct (tw_space x); [discriminate|now apply H].
+Qed.
+
+(* ---- names ---- *)
+(* a name the help model wraps in tags: no "<", no backslash *)
+Definition plain (n : str) : Prop := no_lt n /\ no_bsl n.
+Lemma plain_munge n : plain n -> plain (munge n).
+Proof. intros [H1 H2]. split; [now apply munge_no_lt|now apply munge_no_bsl]. Qed.
+Lemma plain_calm sty n : plain n -> calm sty n.
+Proof. intros [H1 H2]. apply calm_text; [exact H1|now apply no_bsl_ends]. Qed.
+Lemma plain_app a b : plain a -> plain b -> plain (a ++ b).
+Proof. intros [A1 A2] [B1 B2]. split; apply Forall_app; auto. Qed.
+Ltac plain_const := split; repeat constructor; discriminate.
+Definition NM_C1 : str := [99; 49]%N. Definition NM_B : str := [98]%N. Definition NM_U : str := [117]%N.
+Definition simple_nm (nm : str) : Prop := tag_name nm /\ ~ In HY nm /\ ~ In EQS (py_lower nm).
+Lemma simple_c1 : simple_nm NM_C1.
+Proof. split; [split; [reflexivity|repeat constructor]|]. split; cbn; intros H; repeat (destruct H as [H|H]; [discriminate|]); exact H. Qed.
+Lemma simple_b : simple_nm NM_B.
+Proof. split; [split; [reflexivity|repeat constructor]|]. split; cbn; intros H; repeat (destruct H as [H|H]; [discriminate|]); exact H. Qed.
+Lemma simple_u : simple_nm NM_U.
+Proof. split; [split; [reflexivity|repeat constructor]|]. split; cbn; intros H; repeat (destruct H as [H|H]; [discriminate|]); exact H. Qed.
+Lemma calm_wrap sty nm x : simple_nm nm -> calm sty x -> calm sty (tag_str false nm ++ x ++ tag_str true nm).
+Proof. intros (H1 & H2 & H3). now apply calm_pair. Qed.
+Definition B_OPEN : str := tag_str false NM_B. Definition B_CLOSE : str := tag_str true NM_B.
+Definition U_OPEN : str := tag_str false NM_U. Definition U_CLOSE : str := tag_str true NM_U.
+
+(* ---- the labels of the help model: calm, once and for all ---- *)
+Lemma dashes_plain n : plain n -> plain (DASH :: DASH :: n) /\ plain (DASH :: n).
+Proof. intros [H1 H2]. split; split; repeat (constructor; [discriminate|]); assumption. Qed.
+Lemma option_label_calm sty h : plain (o_long (h_o h)) -> (match o_short (h_o h) with Some s => plain s | None => True end) ->
+  calm sty (elem_label (render_option h)).
+Proof.
+  intros Hl Hs. rewrite render_option_names_lemma. change C1 with (tag_str false NM_C1). change C1E with (tag_str true NM_C1).
+  destruct (dashes_plain _ Hl) as [Hll _].
+  destruct (bit (o_flags (h_o h)) 0).
+  - rewrite app_assoc, app_assoc, <- (app_assoc (tag_str false NM_C1)). apply calm_app; [apply calm_wrap; [exact simple_c1|now apply plain_calm]|].
+    destruct (o_short (h_o h)) as [s|]; [|apply calm_nil]. destruct (dashes_plain _ Hs) as [_ Hss]. apply plain_calm.
+    apply plain_app; [plain_const|]. apply plain_app; [exact Hss|plain_const].
+  - rewrite app_assoc, app_assoc, <- (app_assoc (tag_str false NM_C1)). apply calm_app.
+    + apply calm_wrap; [exact simple_c1|]. destruct (o_short (h_o h)) as [s|]; [destruct (dashes_plain _ Hs) as [_ Hss]; now apply plain_calm|].
+      apply plain_calm. plain_const.
+    + apply plain_calm. apply plain_app; [plain_const|]. apply plain_app; [exact Hll|plain_const].
+Qed.
+(* <c1><</c1>: the "<" that opens the placeholder, kept apart from the name *)
+Lemma lt_wrapped_calm sty : calm sty (C1 ++ [LT] ++ C1E).
+Proof.
+  assert (scan (C1 ++ [LT] ++ C1E) = mk [([], Tag C1 false NM_C1); ([LT], Tag C1E true NM_C1)] [] CText) as Es by (vm_compute; reflexivity).
+  split; [unfold quiet; rewrite Es; split; reflexivity|]. split; [apply nhb_ok; vm_compute; reflexivity|].
+  intros sk. unfold effect. fold (scan (C1 ++ [LT] ++ C1E)). rewrite Es. cbn [mk l_done segs_stack]. rewrite !esc_of_false.
+  change (ends_with_bsl []) with false. change (ends_with_bsl [LT]) with false.
+  destruct simple_c1 as (_ & _ & He). pose proof (resolve_no_eq sty NM_C1 He) as Hr. unfold tag_stack.
+  change (match NM_C1 with [] => true | _ => false end) with false. cbn [andb]. rewrite Hr. cbn [bind].
+  destruct (style_of sty NM_C1) as [st|]; cbn [bind]; [now rewrite pop_pushed|reflexivity].
+Qed.
+Lemma argument_label_calm sty a : plain (a_name (h_a a)) -> calm sty (elem_label (render_argument a)).
+Proof.
+  intros Hn. rewrite render_argument_name_lemma. rewrite app_assoc, app_assoc. apply calm_app.
+  - rewrite <- app_assoc. apply lt_wrapped_calm.
+  - rewrite (app_assoc (a_name (h_a a))). change C1 with (tag_str false NM_C1). change C1E with (tag_str true NM_C1).
+    apply calm_wrap; [exact simple_c1|]. apply plain_calm. apply plain_app; [exact Hn|plain_const].
+Qed.
+Lemma command_label_calm sty n : plain n -> calm sty (C1 ++ n ++ C1E).
+Proof. intros Hn. change C1 with (tag_str false NM_C1). change C1E with (tag_str true NM_C1). apply calm_wrap; [exact simple_c1|now apply plain_calm]. Qed.
+Lemma u_tag_calm sty n : plain n -> calm sty (u_tag n).
+Proof. intros Hn. unfold u_tag. change [60;117;62]%N with (tag_str false NM_U). change [60;47;117;62]%N with (tag_str true NM_U). apply calm_wrap; [exact simple_u|now apply plain_calm]. Qed.
